@@ -149,6 +149,10 @@ Proof.
     rewrite abs_length. auto.
   - (* GetArrayPointer *)
     cbn [fst snd]. rewrite (pieces_spec ow sq q I). auto.
+  - (* AdoptRawDataArray *)
+    destruct (adopt_spec sq ow q xs spare I). cbn [fst snd]. auto.
+  - (* ReleaseRawDataArray *)
+    destruct (release_spec jk sq ow q I). cbn [fst snd]. auto.
 Qed.
 
 Corollary step_inv q o : Inv q -> Inv (fst (step1 q o)).
